@@ -211,10 +211,12 @@ theorem accepts_finite_float {reg : Reg} {n : String} (hn : reg.get? n = some .f
     coerceValue reg (fuel + 1) (.named n) (.float t) = .ok (.float (.text t)) := by
   simp [coerceValue, Ty.isNonNull, stripNN, coerceCore, JV.isNull, hn, coerceFloat, ht, clsOf, floatChecked_finite]
 
-/-- **rejects: structurally wrong literal** — a list / object / enum literal where a scalar is expected, anything but
-    an enum value where an enum is expected, anything but an object where an input object is expected. -/
+/-- **rejects: structurally wrong literal** — a list / object / enum literal where a specified scalar, or a custom scalar
+    WITHOUT its own `parse_literal`, is expected (a custom scalar with its own `parse_literal` is handed every literal: its
+    business), anything but an enum value where an enum is expected, anything but an object where an input object is expected. -/
 theorem rejects_structurally_wrong_literal {reg : Reg} {n : String} (vars : Option (List (String × PV))) (fuel : Nat) (pv : PV) :
-    (∀ k, reg.get? n = some k → (IsSpecifiedScalar k ∨ k = .custom) → ∀ l, l.isNull = false → isScalarLit l = false →
+    (∀ k, reg.get? n = some k → (IsSpecifiedScalar k ∨ (k = .custom ∧ reg.customHasParseLiteral n = false)) →
+        ∀ l, l.isNull = false → isScalarLit l = false →
         (∀ x, l ≠ .var x) → valueFromAst reg vars fuel (.named n) l ≠ .ok pv) ∧
     (∀ vs, reg.get? n = some (.enum vs) → ∀ l, l.isNull = false → (∀ s, l ≠ .enum s) → (∀ x, l ≠ .var x) →
         valueFromAst reg vars fuel (.named n) l ≠ .ok pv) ∧
@@ -226,7 +228,7 @@ theorem rejects_structurally_wrong_literal {reg : Reg} {n : String} (vars : Opti
     refine ⟨?_, ?_, ?_⟩
     · intro k hk hs l hl hsc hx
       cases l <;> simp_all [isScalarLit] <;>
-        (cases k <;> simp_all [IsSpecifiedScalar, valueFromAst, Ty.isNonNull, stripNN, vfaCore, Lit.isNull, isScalarLit])
+        (cases k <;> simp_all [IsSpecifiedScalar, valueFromAst, Ty.isNonNull, stripNN, vfaCore, Lit.isNull, isScalarLit, litAdmitted])
     · intro vs hk l hl hne hx
       cases l <;> simp_all [valueFromAst, Ty.isNonNull, stripNN, vfaCore, Lit.isNull]
     · intro fs hk l hl hno hx
